@@ -142,7 +142,7 @@ PROPS = {
         gen_t=[("data_q", 200, 30), ("data_buckets_q", 200, 30), ("data_equal_q", 100, 30), ("data_inj_q", 100, 30)],
     ),
     "C17": dict(
-        family="eco", mc=[],
+        family="eco", mc=[], level="exploration",
         parts=[
             dict(family="eco", mc=[], inv=[], step=[], tinv=["T_C17_Lists", "T_C17_Singles"], observers="query"),
         ],
@@ -161,3 +161,36 @@ HOOK_COMMITS = ["65ff9943f"]
 NOT_APPLICABLE = {
     "C19": "numeric accuracy of pure decimal functions over 34-digit coefficients: TLC integers are 32-bit and there is no state machine to specify (DESIGN.md 5, C19)",
 }
+
+
+# ---------------------------------------------------------------- manifest texts
+_MC = ("TLC model-checks the property's TLA+ formulas exhaustively on bounded configurations of the explicit specification "
+       "(spec/*.tla); TLC-generated behaviours, a code-led random driver and per-step probes are executed on the real keepers "
+       "through ABCI, and TLC evaluates the same formulas on every recorded real state and step (trace validation), together with "
+       "step-by-step conformance of the code to the specification. ")
+_NOTE = ("Trusted: TLC, the Go toolchain, cosmos-sdk baseapp/IAVL/x-bank, the harness projector and concretiser (harness/*.go). "
+         "Bounded: small constants for the exhaustive runs; sampled behaviours (seeded) for the code; amounts beyond 2^30 normalised units "
+         "are dropped, not judged.")
+TEXT = {
+    "C01": dict(text=_MC + "Conservation is a state invariant over all ledgers, so it is evaluated after every message and block of every executed history, which is the quantifier the property asks for.", technique="TLA+ spec + TLC model checking + TLC trace validation (state invariant over projected ORM/bank state)"),
+    "C02": dict(text=_MC + "The issued amount is a ghost variable of the specification recomputed by TLC from the logged events, never by the harness.", technique="TLA+ ghost ledger + TLC model checking + trace validation"),
+    "C03": dict(text=_MC + "Ownership safety is a step property over the signer set msg.GetSigners() logged with each real message, with the two exceptions the property states.", technique="TLA+ action property over logged signers + TLC model checking + trace validation"),
+    "C04": dict(text=_MC + "Monotonicity is an action property checked on every real step, failed messages included.", technique="TLA+ action property + TLC model checking + trace validation"),
+    "C05": dict(text=_MC + "The real x/bank keeper mints and burns; basket tokens are normalised with the credit unit so that backing is an equation TLC can evaluate.", technique="TLA+ spec of basket + bank + TLC model checking + trace validation"),
+    "C06": dict(text=_MC + "Escrow = open orders is an invariant; 'allowed when written' is an action property against the pre-state allow list.", technique="TLA+ invariant + action property + TLC model checking + trace validation"),
+    "C07": dict(text=_MC + "Settlement is checked with exact rational arithmetic over naturals and the property's own one-unit tolerances, not equality with the specification.", technique="TLA+ action properties with cross-multiplied rational bounds + TLC model checking + trace validation"),
+    "C08": dict(text=_MC + "Every gated message is tried by every account in every role assignment of the bounded configurations; footprints are frame conditions on the state record.", technique="TLA+ role predicates and frame conditions + TLC model checking + trace validation (ecocredit and data)"),
+    "C09": dict(text="Exploration driven by the specification: TLC generates behaviours (including the boundary inputs message validation accepts), the harness inserts export/validate/import/re-export observation steps after ~30% of the steps and at the end, continues each behaviour on the imported chain, and TLC evaluates the observations and state equality. The validators are code and can only be observed; there is nothing to model-check.", technique="TLA+-generated behaviours with ExportImport observation steps + TLC trace validation"),
+    "C10": dict(text="Exploration driven by the specification: TLC-generated histories are executed once with random restarts at block boundaries and re-executed in three fresh applications with other restart schedules; TLC compares the digest sequences (app hash per block; code, data, gas, events per message) and checks that failed messages leave the abstract state and the raw KV content unchanged.", technique="TLA+-generated histories and restart schedules + replica comparison validated by TLC"),
+    "C11": dict(text=_MC + "Admission has both directions (only if / if); oldest-first and auto-retire are action properties over the logged response and the basket rows.", technique="TLA+ action properties + TLC model checking over criteria boundaries + trace validation"),
+    "C12": dict(text=_MC + "The real Module.BeginBlock runs through ABCI under recover; the post-condition is an action property on every block step.", technique="TLA+ action property on BeginBlock + TLC model checking + trace validation"),
+    "C13": dict(text=_MC + "At-most-once is a ghost log of issuing events with origin transactions, kept by the specification.", technique="TLA+ ghost log + action properties + TLC model checking + trace validation"),
+    "C14": dict(text=_MC + "Identifiers are real strings that the specification builds with the documented formats, so format, numbering and references are formulas over the projected tables.", technique="TLA+ string-building id model + invariants + TLC model checking + trace validation"),
+    "C15": dict(text="A functional TLA+ specification of the hash<->IRI format is model-checked over all pairs of boundary classes; every enumerated content hash and structured mutations of the produced IRIs are executed on the real Validate/ToIRI/ParseIRI and TLC validates the results (round trip, injectivity, accepted IRIs re-encode) and their conformance to the specification.", technique="functional TLA+ spec + TLC over pairs of boundary classes + result validation by TLC", note="base58check is treated as injective; boundary classes, not all 2^32 values."),
+    "C16": dict(text=_MC + "The ID hash function is a constant table of the specification injected into the real data server through the one build-tag hook, so collisions are the norm.", technique="TLA+ spec with weak hash tables + TLC model checking + trace validation with injected hasher"),
+    "C17": dict(text="Every list query is a TLA+ operator over the specification's state (QExpect); the harness walks the real queries page by page (page sizes 1,2,3,5,100; key- and offset-based; no page request) through the gRPC query router at states of TLC-generated behaviours and TLC compares items, duplicates, totals and single-entity answers. Exploration: no exhaustive model run applies.", technique="TLA+ query operators evaluated by TLC on real states (trace validation)"),
+    "C18": dict(text=_MC + "'No accepted parameter disables a feature' is Pre_T => ok checked by TLC in every reachable parameter configuration; counterexamples of the specification are replayed on the code (three defects found and fixed this way).", technique="TLA+ precondition/guard implication + TLC model checking over parameter configurations + counterexample replay + trace validation"),
+    "C20": dict(text=_MC + "ibc-go is represented by recording stand-ins whose tables the behaviour's environment steps set; the real keeper and Msg service run through ABCI.", technique="TLA+ spec + TLC model checking over availability combinations + trace validation", note="stand-ins for the ICA controller and capability keepers; " + _NOTE),
+}
+for _k in TEXT:
+    TEXT[_k].setdefault("note", _NOTE)
